@@ -125,12 +125,41 @@ class ModuleInfo:
         self.relpath = relpath
         self.src = src
         self.sha256 = hashlib.sha256(src.encode()).hexdigest()
-        self.tree = ast.parse(src, filename=path)
+        self.tree = _fold_return_temporaries(ast.parse(src, filename=path))
         self.imports = {}  # local name -> dotted name
         self.functions = {}
         self.classes = {}
         self.constants = {}  # name -> value expr (module-level simple assigns)
         self.all_assign_targets = {}  # name -> [Assign nodes] at module level
+
+
+def _fold_return_temporaries(tree):
+    """Normalisation: ``tmp = <expr>`` immediately followed by ``return tmp`` with no other use of ``tmp`` in the function
+    is read as ``return <expr>`` (positions of the original nodes are kept), so that rules see one form of a result."""
+    for fn in ast.walk(tree):
+        if not isinstance(fn, (ast.FunctionDef, ast.AsyncFunctionDef)):
+            continue
+        uses = {}
+        for n in ast.walk(fn):
+            if isinstance(n, ast.Name):
+                uses[n.id] = uses.get(n.id, 0) + 1
+        for holder in ast.walk(fn):
+            for field in ("body", "orelse", "finalbody"):
+                blk = getattr(holder, field, None)
+                if not (isinstance(blk, list) and len(blk) >= 2 and isinstance(blk[0], ast.stmt)):
+                    continue
+                k = 1
+                while k < len(blk):
+                    a, r = blk[k - 1], blk[k]
+                    if (isinstance(r, ast.Return) and isinstance(r.value, ast.Name) and isinstance(a, ast.Assign) and len(a.targets) == 1
+                            and isinstance(a.targets[0], ast.Name) and a.targets[0].id == r.value.id and uses.get(r.value.id) == 2):
+                        new = ast.Return(value=a.value)
+                        ast.copy_location(new, a)
+                        new.end_lineno, new.end_col_offset = r.end_lineno, r.end_col_offset
+                        blk[k - 1:k + 1] = [new]
+                    else:
+                        k += 1
+    return tree
 
 
 class Program:
